@@ -5,7 +5,7 @@ PROP = 'C02'
 
 
 def run(chk):
-    n = 600 if chk.tier == 'quick' else 6000
+    n = 600 if chk.size_tier == 'quick' else 6000
     chk.rule = ('scenes from families synth / exact (okta and MSA boundaries) / degenerate / multi (>3 reportable '
                 'layers), run stage by stage through the real pipeline; every level (slices, groups, layers) is one '
                 'table+message compared with the model and checked against the spec predicates; non-trivial = some '
